@@ -28,6 +28,27 @@ MIN_INSTANCES = 25
 OPQ = ('_can_fulfill_request',)
 
 
+def _alias_is_tame(fn, name):
+    """every use of the local `name` in fn is len(name), name[...] (read) or name.pop(...)"""
+    par = {}
+    for n in ast.walk(fn):
+        for ch in ast.iter_child_nodes(n):
+            par[ch] = n
+    stores = 0
+    for n in ast.walk(fn):
+        if isinstance(n, ast.Name) and n.id == name:
+            p_ = par.get(n)
+            if isinstance(n.ctx, ast.Store):
+                stores += 1
+                continue
+            ok = (isinstance(p_, ast.Subscript) and p_.value is n and isinstance(p_.ctx, ast.Load)) or \
+                 (isinstance(p_, ast.Call) and isinstance(p_.func, ast.Name) and p_.func.id == 'len' and n in p_.args) or \
+                 (isinstance(p_, ast.Attribute) and p_.attr == 'pop' and isinstance(par.get(p_), ast.Call))
+            if not ok:
+                return False
+    return stores == 1
+
+
 def check(ctx):
     P = ctx.P
     RM = P.cls('ResourceManager')
@@ -55,34 +76,30 @@ def check(ctx):
         iv = head.ast.left.id if isinstance(head.ast.left, ast.Name) else head.ast.comparators[0].id
         entry = f'self._waiting_requests[{iv}]'
 
-        from ..norm import single_defs
-        defs = single_defs(fn)
-
-        def rs(e, depth=0):
-            """text of e with single-definition locals (e.g. `request, callback = self._waiting_requests[i]`) substituted"""
-            if isinstance(e, ast.Name) and e.id in defs and e.id != iv and depth < 5:
-                return rs(defs[e.id], depth + 1)
-            if isinstance(e, ast.Subscript):
-                return f'{rs(e.value, depth)}[{ast.unparse(e.slice)}]'
-            return ast.unparse(e)
+        def rs(e, frame):
+            """canonical spelling: locals (`request, callback = self._waiting_requests[i]`), aliases of the list and parameters of a
+            helper that serves one index are substituted"""
+            return dv.canon_text(e, frame, keep=(iv,))
 
         def classify(node, lbl):
             if node.kind == 'cond' and isinstance(node.ast, ast.Call) and call_attr(node.ast) == '_can_fulfill_request':
-                arg = rs(node.ast.args[0]) if node.ast.args else ''
+                arg = rs(node.ast.args[0], node.frame) if node.ast.args else ''
                 return ('test', lbl, arg == f'{entry}[0]')
             if node.kind == 'stmt':
                 for cl in calls_at(g, node):
-                    ft = rs(cl.func) if isinstance(cl.func, (ast.Subscript, ast.Name)) else ''
+                    ft = rs(cl.func, node.frame) if isinstance(cl.func, (ast.Subscript, ast.Name)) else ''
                     if ft.startswith('self._waiting_requests'):
-                        good = ft == f'{entry}[1]' and [rs(a) for a in cl.args] == ['self', f'{entry}[0]'] and not cl.keywords
+                        good = ft == f'{entry}[1]' and [rs(a, node.frame) for a in cl.args] == ['self', f'{entry}[0]'] and not cl.keywords
                         return ('cb', good)
-                s = node.src().replace(' ', '')
+                a_ = node.ast
+                s = rs(a_.value, node.frame) if isinstance(a_, ast.Expr) else ('del' + rs(a_.targets[0], node.frame)) if isinstance(a_, ast.Delete) and len(a_.targets) == 1 else ''
                 if s in (f'self._waiting_requests.pop({iv})', f'delself._waiting_requests[{iv}]'):
                     return ('rm',)
-                if isinstance(node.ast, ast.AugAssign) and isinstance(node.ast.target, ast.Name) and node.ast.target.id == iv:
-                    return ('inc',)
-                if isinstance(node.ast, ast.Assign) and any(isinstance(t, ast.Name) and t.id == iv for t in node.ast.targets):
-                    return ('inc',)
+                if node.frame is head.frame:
+                    if isinstance(node.ast, ast.AugAssign) and isinstance(node.ast.target, ast.Name) and node.ast.target.id == iv:
+                        return ('inc',)
+                    if isinstance(node.ast, ast.Assign) and any(isinstance(t, ast.Name) and t.id == iv for t in node.ast.targets):
+                        return ('inc',)
             return None
         paths = dv.loop_body_paths(g, head)
         o3.require(paths, 'the scan loop of _check_pending_requests has no body path')
@@ -140,8 +157,8 @@ def check(ctx):
                     bad = 'a waiting entry must be (deep copy of the request, callback)'
                 else:
                     o4.witness('append')
-            elif role[1] == 'pop' and s.func.name == '_check_pending_requests':
-                o4.witness('pop')
+            elif role[1] == 'pop' and s.func.name in inv.covered(P, {'_check_pending_requests'}):
+                o4.witness('pop')       # which element is removed, and when, is decided by C10.2 / C10.3
             elif role[1] in ('copy', 'index', 'count'):
                 pass
             else:
@@ -151,6 +168,8 @@ def check(ctx):
                 bad = 'the waiting list is re-bound'
         elif role[0] in ('subscript-load', 'iter', 'test') or (role[0] == 'arg' and role[1] == 'len'):
             pass
+        elif role[0] == 'assign-alias' and s.func.name in inv.covered(P, {'_check_pending_requests'}) and role[1].isidentifier() and _alias_is_tame(s.func, role[1]):
+            pass        # a local name for the list inside the serving scan, used only to measure, index and pop (canonicalised in C10.2/C10.3)
         else:
             bad = f'unexpected use of the waiting list ({role[0]})'
         if bad:
